@@ -9,7 +9,7 @@ import json, os, random, re, shutil, sys, time
 sys.path.insert(0, os.path.dirname(os.path.abspath(__file__)))
 import vlib, fam
 
-CLAUSES = ["NoHang", "Established", "NoticeOnce", "NoticeType", "NoticeReason", "CallFails", "Incarnation", "NoStray"]
+CLAUSES = ["NoHang", "Established", "NoticeOnce", "NoticeType", "NoticeReason", "NothingAfterTheNotice", "CallFails", "Incarnation", "NoStray"]
 KINDS = ["pid", "name", "alias", "event", "node"]
 
 
@@ -30,6 +30,7 @@ def cases(tier, rng):
         # every other case: the requester is descheduled between sending its request and waiting for the result
         d["slowreq"] = d["when"] == "after" and len(out) % 2 == 0
         d.setdefault("stagger", False)
+        d.setdefault("again", False)
         out.append(d)
     for rel in ("link", "monitor"):
         for kind in KINDS:
@@ -42,6 +43,12 @@ def cases(tier, rng):
             fs = [f for f in faults_for(kind) if f in ("termkill", "termcustom", "unregister", "cut")]
             for fault in (fs if tier == "thorough" else rng.sample(fs, min(2, len(fs)))):
                 add(rel=rel, kind=kind, fault=fault, when="after", obs=1, pool=rng.choice([1, 2]), stagger=True)
+    # after the loss: the nodes reconnect, somebody else relates to the same target, the target terminates - the first observers have had theirs
+    for rel in ("link", "monitor"):
+        for kind in KINDS:
+            if kind != "node":
+                add(rel=rel, kind=kind, fault="cut", when="after", obs=rng.choice([1, 2]), pool=rng.choice([1, 2]), again=True)
+        add(rel=rel, kind="name", more=["event", "pid"], fault="cut", when="after", obs=1, pool=2, again=True)
     # one consumer with relations on several targets of the node that goes away
     for rel in ("link", "monitor"):
         for fault in ("cut", "stop"):
